@@ -517,6 +517,10 @@ var c17Programs = []struct{ src, kind string }{
 	{"replace all any with ''", "replace"},
 	{"replace all any = c with c c", "replace"},
 	{"replace all any with nosuch", "replace-none"},
+	// replacements that are EMPTY for some matches and not for others: an optional capture, a transform returning ''
+	{"replace all (not whitespace) (maybe any) = opt with opt", "replace-some-empty"},
+	{"set t to transform\n if matchNumber % 2 == 0 then return '' end return match\nend\nreplace all any with t", "replace-some-empty"},
+	{"replace all any with '' ''", "replace"},
 	{"replace all at least 1 ((not whitespace) = x) named lp with '<' value '>' matchNumber filename", "replace-nested"},
 	{"replace top 1 whole line with 'x\\x01\\n'", "replace-one"},
 	{"find all 'a'\nreplace all 'b' with 'c'", "mixed"},
